@@ -11,6 +11,8 @@ from .common import T, calls_named, conds, every_origin, facts, key, need, subsc
 
 GDEF = "ufo2ft.featureWriters.gdefFeatureWriter.GdefFeatureWriter"
 CURS = "ufo2ft.featureWriters.cursFeatureWriter.CursFeatureWriter"
+GDEFW_MOD = "ufo2ft.featureWriters.gdefFeatureWriter"
+CURS_MOD = "ufo2ft.featureWriters.cursFeatureWriter"
 
 
 def run(prog, chk):
@@ -19,6 +21,7 @@ def run(prog, chk):
         "a user GDEF block suppresses generated classes for GlyphClassDefStatement and generated carets for every LigatureCaret*Statement kind feaLib defines (R18.2)",
         "carets are collected per glyph, sorted, then rounded; glyph classes are restricted to exported glyphs and sorted (R18.3)",
         "RightToLeft flag is set exactly when direction != 'LTR'; .LTR/.RTL suffixes decide the direction before that test; the LTR/RTL split is by membership in the LTR glyph set and skipped for suffixed anchors; coordinates are rounded (R18.4)",
+        "no caret / cursive anchor coordinate is dropped or defaulted by a truthiness test: 0 is a legitimate coordinate (R18.6)",
         "the LTR glyph set is classifyGlyphs(unicodeScriptDirection, whole cmap, compiled GSUB, designspace-rule substitutions) and classifyGlyphs closes each class together with the neutral glyphs (R18.5)",
     ]
     chk.not_decided += ["the values read back from the compiled GDEF/GPOS", "script direction data (unicodedata)"]
@@ -27,6 +30,9 @@ def run(prog, chk):
     r183(prog, chk)
     r184(prog, chk)
     r185(prog, chk)
+    from .rounding import check_no_truthiness_on_coordinates
+    n = check_no_truthiness_on_coordinates(prog, chk, "R18.6", [GDEFW_MOD, CURS_MOD, "ufo2ft.featureWriters.baseFeatureWriter"])
+    need(n >= 20, "truthiness scan found too few tests")
 
 
 def r181(prog, chk):
@@ -367,6 +373,10 @@ def r185(prog, chk):
 
 
 MUTANTS = [
+    M("carets at 0 filtered out (seeded C18b)", "ufo2ft/featureWriters/gdefFeatureWriter.py", "GdefFeatureWriter._getLigatureCarets",
+      "carets = dict()", "carets = dict()\nfirstX = next(filter(None, (a.x for g in self.context.orderedGlyphSet.values() for a in g.anchors)), None)", rule="R18.6"),
+    M("cursive anchors with x == 0 skipped", "ufo2ft/featureWriters/cursFeatureWriter.py", "CursFeatureWriter._getAnchors",
+      "entryAnchorXY = self._getAnchor(glyphName, entryName)", "entryAnchorXY = self._getAnchor(glyphName, entryName)\nif entryAnchorXY is not None and not entryAnchorXY[0]:\n    entryAnchorXY = None", rule="R18.6"),
     M("direction-neutral code points filtered out of the cmap (seeded C18a)", "ufo2ft/featureWriters/cursFeatureWriter.py", "CursFeatureWriter._makeCursiveFeature",
       "dirGlyphs = classifyGlyphs(unicodeScriptDirection, cmap, gsub, extras)",
       "dirCmap = {uv: g for uv, g in cmap.items() if unicodeScriptDirection(uv) is not None}\ndirGlyphs = classifyGlyphs(unicodeScriptDirection, dirCmap, gsub, extras)", rule="R18.5"),
